@@ -61,6 +61,13 @@ def perturb_datetimes(inst, schema, rnd):
     for m in inst:
         if isinstance(m, Aggregate):
             perturb_datetimes(m, schema, rnd)
+    # members of several classes in an order of the caller's choosing (any order is legal within a run of repeated children;
+    # classes whose repeated children are not adjacent are written run by run and left alone here)
+    attrs = schema[cls]["attrs"]
+    li = [i for i, a in enumerate(attrs) if a["k"] in ("lagg", "lelem")]
+    one_run = li and all(attrs[i]["k"] in ("lagg", "lelem", "unsup") for i in range(li[0], li[-1] + 1))
+    if one_run and len({type(m).__name__ for m in inst}) >= 2 and rnd.random() < 0.5:
+        inst.reverse()
 
 
 def run(ctx):
@@ -76,6 +83,23 @@ def run(ctx):
     docs = [("min " + c, dc.from_nested(mins[c])) for c in sorted(schema)]
     for i, g in enumerate(gc.simulate_docs(ctx, 600 if quick else 12000, maxtok=40)):
         docs.append(("gen%d" % i, gc.concretise(g, types, rnd, rich=True)))
+    # classes with several repeated children: one member of each (the members in declaration order, and reversed in memory)
+    from c13 import add_child
+    import copy as _copy
+    for cls in sorted(schema):
+        attrs = schema[cls]["attrs"]
+        li = [i for i, a in enumerate(attrs) if a["k"] in ("lagg", "lelem")]
+        if len(li) < 2 or cls not in mins:
+            continue
+        node = _copy.deepcopy(mins[cls])
+        for a in attrs:
+            if a["k"] in ("lagg", "lelem") and a["tag"] not in [k[0] for k in node[2]]:
+                try:
+                    node = add_child(node, cls, a, schema, types, mins)
+                except Exception:
+                    pass
+        docs.append(("multi " + cls, dc.from_nested(node)))
+        docs.append(("multi-rev " + cls, dc.from_nested(node)))
     evs = []
     nform = {}
     for n, (name, doc) in enumerate(docs):
@@ -84,7 +108,12 @@ def run(ctx):
         except Exception as e:
             ctx.fail({"clause": "build", "label": name, "what": "valid document rejected: %s %r" % (dc.doc_text(doc)[:300], e)})
             continue
-        if rnd.random() < 0.6:
+        if name.startswith("multi-rev "):
+            at_ = schema[type(inst).__name__]["attrs"]
+            li_ = [i for i, a in enumerate(at_) if a["k"] in ("lagg", "lelem")]
+            if all(at_[i]["k"] in ("lagg", "lelem", "unsup") for i in range(li_[0], li_[-1] + 1)):
+                inst.reverse()
+        elif rnd.random() < 0.6:
             perturb_datetimes(inst, schema, rnd)
         forms = fc.FORMS if not quick else rnd.sample(fc.FORMS, 2)
         for form, pretty in forms:
